@@ -8,6 +8,7 @@ import (
 	"crypto/x509"
 	"fmt"
 	"io"
+	"strings"
 
 	"github.com/WICG/webpackage/go/signedexchange/certurl"
 	"github.com/WICG/webpackage/go/zz_verif/gen"
@@ -422,6 +423,63 @@ func run(r *mon.Run) {
 			off += lens[2*i+1]
 		}
 		checkChain(r, es, "arena-windows", 1)
+	}
+	// read side: map keys are exact. Keys that differ from cert / ocsp / sct only in letter case or by a Unicode
+	// look-alike ("oc\u017fp": long s folds to s) are unknown keys - they neither supply nor replace a field.
+	if r.Shard == 0 {
+		g := r.Rand("keys", 0)
+		c0, c1 := pool[0], pool[1]
+		real, fake := blob(g, 20), blob(g, 21)
+		mk := func(first, second []rcbor.KV) []byte {
+			out := rcbor.ArrayHead(3)
+			out = append(out, rcbor.Text(magic)...)
+			m0, _ := rcbor.Map(first)
+			m1, _ := rcbor.Map(second)
+			return append(append(out, m0...), m1...)
+		}
+		certKV := func(c *x509.Certificate) rcbor.KV { return rcbor.KV{K: rcbor.Text("cert"), V: rcbor.Bytes(c.Raw)} }
+		for _, variant := range []string{"OCSP", "Ocsp", "ocsP", "oc\u017fp", "OC\u017fP"} {
+			// (a) the first element has no "ocsp", only the variant: no OCSP response -> must be refused
+			x := mk([]rcbor.KV{certKV(c0), {K: rcbor.Text(variant), V: rcbor.Bytes(real)}}, []rcbor.KV{certKV(c1)})
+			_, err := certurl.ReadCertChain(bytes.NewReader(x))
+			if err == nil {
+				r.Eval("keys:VARIANT-TAKEN-FOR-OCSP")
+				r.Violation("cc:keys:first:"+variant, fmt.Sprintf("a chain whose first element has no \"ocsp\" entry but one named %q was read without error", variant), map[string]any{"input": mon.Short(x)})
+			} else {
+				r.Eval("keys:variant-is-not-ocsp")
+			}
+			// (b) real "ocsp" plus the variant with other bytes: the real one is what must come back
+			x = mk([]rcbor.KV{certKV(c0), {K: rcbor.Text("ocsp"), V: rcbor.Bytes(real)}, {K: rcbor.Text(variant), V: rcbor.Bytes(fake)}}, []rcbor.KV{certKV(c1)})
+			got, err := certurl.ReadCertChain(bytes.NewReader(x))
+			switch {
+			case err != nil:
+				r.Eval("keys:unknown-key-refused(no verdict)")
+			case len(got) != 2 || !bytes.Equal(got[0].OCSPResponse, real):
+				r.Eval("keys:VARIANT-REPLACED-OCSP")
+				r.Violation("cc:keys:replace:"+variant, fmt.Sprintf("an entry named %q replaced the OCSP response of the \"ocsp\" entry", variant), map[string]any{"input": mon.Short(x)})
+			default:
+				r.Eval("keys:real-ocsp-kept")
+			}
+		}
+		for _, variant := range []string{"SCT", "Sct", "\u017fct", "CERT", "Cert"} {
+			kvs := []rcbor.KV{{K: rcbor.Text("ocsp"), V: rcbor.Bytes(real)}, {K: rcbor.Text(variant), V: rcbor.Bytes(fake)}}
+			if !strings.EqualFold(variant, "cert") {
+				kvs = append(kvs, certKV(c0))
+			}
+			x := mk(kvs, []rcbor.KV{certKV(c1)})
+			got, err := certurl.ReadCertChain(bytes.NewReader(x))
+			switch {
+			case strings.EqualFold(variant, "cert") && err == nil:
+				r.Eval("keys:VARIANT-TAKEN-FOR-CERT")
+				r.Violation("cc:keys:cert:"+variant, fmt.Sprintf("an element without \"cert\" but with %q was read without error", variant), nil)
+			case err == nil && len(got) == 2 && got[0].SCTList != nil:
+				r.Eval("keys:VARIANT-TAKEN-FOR-SCT")
+				r.Violation("cc:keys:sct:"+variant, fmt.Sprintf("an entry named %q was returned as the SCT list", variant), nil)
+			default:
+				r.Eval("keys:variant-ignored-or-refused")
+			}
+		}
+		r.Distinct("key-variants")
 	}
 	// several chains in one stream
 	for si := 0; si < 9; si++ {
